@@ -17,7 +17,7 @@
    rejected, being either oversized or non-minimal.  Close codes: valid = 1000-1003, 1007-1013,
    3000-4999 (RFC 7.4.1/7.4.2 plus the two IANA registrations the library's table cites). *)
 From Verif Require Import Lib.Base Lib.Sx Lib.Utf8 Model.WsRead.
-From Verif Require Import Proofs.WsReadUtf8 Proofs.WsRead Proofs.WsReadRefine Proofs.WsReadProps Proofs.WsReadCut Proofs.WsReadFrames Proofs.WsReadApp.
+From Verif Require Import Proofs.WsReadUtf8 Proofs.WsRead Proofs.WsReadRefine Proofs.WsReadProps Proofs.WsReadCut Proofs.WsReadFrames Proofs.WsReadApp Proofs.WsReadPartial.
 From Verif Require Import Gen.Gen_websocket.
 Open Scope Z_scope.
 
@@ -162,6 +162,40 @@ Theorem c14_latched_writes_nothing fixed c : c_wclosed c = true ->
   end.
 Proof. exact (latched_writes_nothing fixed c). Qed.
 
+(* Partial application reads inside a frame (messageReader.Read(b) call by call, Model: mr_read):
+   for EVERY sequence of buffer sizes (0 and 1 included), once the frame is exhausted the chunks the
+   calls returned, concatenated, are the frame's payload -- unmasked correctly across the partial
+   reads (readMaskPos) in the server role -- and the stream is positioned right after the frame.
+   [partial: the composition across frame boundaries and control frames (advanceFrame between the
+   calls resets the position) is modelled call by call (lib_session_partial) and tied by the
+   correspondence run chunk by chunk, but the whole-message statement c14_partial_reads is not
+   proved.] *)
+Theorem c14_partial_reads_frame_partial fixed wants s payload rest s' chunks :
+  c_err (rc s) = None -> c_rem (rc s) = Z.of_nat (length payload) -> c_in (rc s) = payload ++ rest ->
+  in_frame fixed wants s [] = (s', chunks) -> c_rem (rc s') = 0 ->
+  concat (rev chunks) = unmasked (rc s) (rpos s) payload /\ c_in (rc s') = rest.
+Proof. exact (partial_reads_frame fixed wants s payload rest s' chunks). Qed.
+
+(* The limit accounting around an ABANDONED message (NextReader called again without reading):
+   NextReader restarts readLength and the remaining fragments of the abandoned message are added to
+   it before the next message starts.  Limit 100 (and up to 159): a 3 x 40-byte message abandoned
+   after its first frame makes the following 80-byte message fail with ErrReadLimit + Close 1009
+   although 80 <= 100; from limit 160 = 40 + 40 + 80 on it is delivered; read to their ends, per
+   message accounting applies (limit 100 refuses the 120-byte message, limit 120 delivers both).
+   This does NOT contradict the property's limit clause, which only says that no message LONGER
+   than L is ever delivered: here a message within L is refused, nothing over L is delivered. *)
+Theorem c14_abandoned_limit_carry :
+  lib_session_pat true false 100 [true; false] carry_wire =
+    Ok ([(true, RMsg 1 []); (false, RErr ELimit)], [(websocket_CloseMessage, [3; 241]%N)]) /\
+  lib_session_pat true false 159 [true; false] carry_wire =
+    Ok ([(true, RMsg 1 []); (false, RErr ELimit)], [(websocket_CloseMessage, [3; 241]%N)]) /\
+  lib_session_pat true false 160 [true; false] carry_wire =
+    Ok ([(true, RMsg 1 []); (false, RMsg 2 (repeat 9%N 80)); (false, RErr EUeof)], []) /\
+  lib_session true false 100 0 carry_wire = Ok ([RErr ELimit], [(websocket_CloseMessage, [3; 241]%N)]) /\
+  lib_session true false 120 0 carry_wire =
+    Ok ([RMsg 1 (repeat 7%N 120); RMsg 2 (repeat 9%N 80); RErr EUeof], []).
+Proof. exact abandoned_limit_carry. Qed.
+
 (* No run-time panic for any byte stream and fewer than 1000 failed reads (C07 imports this). *)
 Theorem ws_read_total server limit extra bs :
   wf_bytes bs -> limit < 9223372036854775808 -> (extra < 999)%nat ->
@@ -212,6 +246,8 @@ Print Assumptions c14_top_bit_not_a_frame.
 Print Assumptions c14_after_own_close.
 Print Assumptions c14_app_writes_do_not_change_reads.
 Print Assumptions c14_latched_writes_nothing.
+Print Assumptions c14_partial_reads_frame_partial.
+Print Assumptions c14_abandoned_limit_carry.
 Print Assumptions ws_read_total.
 Print Assumptions ws_advance_total.
 Print Assumptions ws_read_total_all.
